@@ -960,7 +960,9 @@ class Distribution(ScalarDistribution):
                 # There is only one sample space: len(indexes) = 1
                 sample_space = sample_spaces[0]
             else:
-                sample_space = list(zip(*sample_spaces))
+                # The image of the sample space under the coalescing map (the
+                # per-group spaces cannot simply be zipped together).
+                sample_space = self._sample_space.coalesce(indexes)
 
         d = Distribution(outcomes, pmf,
                          base=self.get_base(),
